@@ -1,8 +1,8 @@
 (* Property C18: printed form is canonical and re-readable; exit status is the program's result
    ONLY statements: each theorem is closed by `exact` of a lemma proved elsewhere and followed by Print Assumptions. *)
-From Coq Require Import ZArith NArith List Bool Lia Permutation Sorting.
+From Coq Require Import ZArith NArith List Bool Lia Permutation Sorting FMapPositive.
 Import ListNotations.
-Require Import Base Strings Builtins PrintInt Float Num Interp PrintDict.
+Require Import Base Strings Builtins PrintInt Float Num Interp PrintDict Machine Spec HeapFacts Refine1 Refine2 RunG Pure IOSpec Cli.
 Open Scope Z_scope.
 (* reading the printed form of any integer in base 10 gives it back *)
 Theorem int_print_parse n :
@@ -40,4 +40,79 @@ Theorem ple_trans p q r :
   ple p q -> ple q r -> ple p r.
 Proof. exact (PrintDict.ple_trans p q r). Qed.
 Print Assumptions ple_trans.
+
+(* THE COMMAND-LINE FRONT END (cli.run as Cli.cli_run): no expression - status 0, nothing evaluated *)
+Theorem cli_no_expression fuel argv stdin :
+  cli_run fuel [] argv stdin = Done heap0 (world0 stdin) (inl (VInt 0)) 0.
+Proof. exact (Cli.cli_no_expression fuel argv stdin). Qed.
+Print Assumptions cli_no_expression.
+
+(* more than one expression: an error whatever they are; none is evaluated, nothing read or written *)
+Theorem cli_many_expressions fuel a b rest argv stdin :
+  cli_run fuel (a :: b :: rest) argv stdin = Done heap0 (world0 stdin) (inr (many_error (a :: b :: rest))) 0.
+Proof. exact (Cli.cli_many_expressions fuel a b rest argv stdin). Qed.
+Print Assumptions cli_many_expressions.
+
+(* one expression: evaluate it, apply it to the argument strings if it is a function, execute the result if it is an action, turn the result into a status - each stage from the heap and world the one before left *)
+Theorem cli_stages n ip h w t argv :
+  bs (S n) ip h w (TComp (cli_body t argv)) =
+  then_ (run (bs n) ip h w (force (VThunk t))) (fun h1 w1 v =>
+    then_ (stage n ip (fun v => cli_apply v argv) h1 w1 v) (fun h2 w2 v2 =>
+      then_ (stage n ip cli_exec h2 w2 v2) (fun h3 w3 v3 => stage n ip cli_status h3 w3 v3))).
+Proof. exact (Cli.cli_stages n ip h w t argv). Qed.
+Print Assumptions cli_stages.
+
+(* the exit status IS the integer result *)
+Theorem status_of_integer n ip h w z :
+  stage n ip cli_status h w (VInt z) = Done h w (inl (VInt z)) 0.
+Proof. exact (Cli.status_of_integer n ip h w z). Qed.
+Print Assumptions status_of_integer.
+
+Theorem status_of_nil n ip h w :
+  stage n ip cli_status h w VNil = Done h w (inl (VInt 0)) 0.
+Proof. exact (Cli.status_of_nil n ip h w). Qed.
+Print Assumptions status_of_nil.
+
+(* every other kind of result is a type error *)
+Theorem status_of_other_kind n ip h w v :
+  (forall z, v <> VInt z) -> v <> VNil ->
+  stage n ip cli_status h w v = Done h w (inr (mkerr c_type cli_sp)) 0.
+Proof. exact (Cli.status_of_other_kind n ip h w v). Qed.
+Print Assumptions status_of_other_kind.
+
+(* whatever the program, a run of the front end that ends normally ends with an integer *)
+Theorem exit_status_is_an_integer fuel asts argv stdin h w v d :
+  cli_run fuel asts argv stdin = Done h w (inl v) d -> exists z, v = VInt z.
+Proof. exact (Cli.exit_status_is_an_integer fuel asts argv stdin h w v d). Qed.
+Print Assumptions exit_status_is_an_integer.
+
+Theorem not_a_function_not_applied n ip h w v argv :
+  is_fun v = false -> stage n ip (fun v => cli_apply v argv) h w v = Done h w (inl v) 0.
+Proof. exact (Cli.not_a_function_not_applied n ip h w v argv). Qed.
+Print Assumptions not_a_function_not_applied.
+
+(* a top-level function receives exactly the argument strings, in order *)
+Theorem function_applied_to_arguments n ip h w g argv :
+  stage n ip (fun v => cli_apply v argv) h w (VFun g) =
+  then_ (bs n ip h w (TComp (apply_body (EFun g) cli_sp (map VStr argv)))) (fun h1 w1 r => run (bs n) ip h1 w1 (force r)).
+Proof. exact (Cli.function_applied_to_arguments n ip h w g argv). Qed.
+Print Assumptions function_applied_to_arguments.
+
+Theorem not_an_action_not_executed n ip h w v :
+  is_io v = false -> stage n ip cli_exec h w v = Done h w (inl v) 0.
+Proof. exact (Cli.not_an_action_not_executed n ip h w v). Qed.
+Print Assumptions not_an_action_not_executed.
+
+(* a resulting action is executed by the same executor as main.main's *)
+Theorem action_executed n ip h w i :
+  stage n ip cli_exec h w (VIO i) = updd (exec n ip h w (VIO i)) 0.
+Proof. exact (Cli.action_executed n ip h w i). Qed.
+Print Assumptions action_executed.
+
+(* evaluating the program and applying the top-level function read and write nothing *)
+Theorem effects_only_from_the_action n ip h w t argv h1 w1 v h2 w2 r d1 d2 :
+  run (bs n) ip h w (force (VThunk t)) = Done h1 w1 (inl v) d1 ->
+  stage n ip (fun v => cli_apply v argv) h1 w1 v = Done h2 w2 r d2 -> w1 = w /\ w2 = w.
+Proof. exact (Cli.effects_only_from_the_action n ip h w t argv h1 w1 v h2 w2 r d1 d2). Qed.
+Print Assumptions effects_only_from_the_action.
 
